@@ -100,6 +100,16 @@ def setLastContinued (cs : List Comp) : List Comp :=
   | [] => []
   | c :: rest => (({ c with flags := c.flags ||| 1 } : Comp) :: rest).reverse
 
+/-- close the record being filled (marking its last piece CONTINUE when a component is cut in two) and open a new one
+in the continuation area -/
+def SlSt.reopen (s : SlSt) (markLast : Bool) : SlSt :=
+  let s1 := if markLast then { s with open_ := setLastContinued s.open_ } else s
+  { closeSl s1 true with inDr := false, area := 250 }
+
+/-- append one component record to the SL entry being filled -/
+def SlSt.push (s : SlSt) (c : Comp) (grow used : Nat) : SlSt :=
+  { s with open_ := s.open_ ++ [c], cur := if s.inDr then s.cur + grow else s.cur, area := s.area - used }
+
 /-- the inner `while not done` loop for one component -/
 def slComp (fuel : Nat) (s : SlSt) (comp : Bytes) (special : Bool) (flag : Nat) (offset : Nat) : SlSt :=
   match fuel with
@@ -107,22 +117,14 @@ def slComp (fuel : Nat) (s : SlSt) (comp : Bytes) (special : Bool) (flag : Nat) 
   | fuel + 1 =>
     let minimum := if special then 2 else 3
     -- no room even for the smallest component: close this SL record and open a new one in the CE area
-    let s := if minimum > s.area then
-        let s1 := if offset ≠ 0 then { s with open_ := setLastContinued s.open_ } else s
-        let s2 := closeSl s1 true
-        { s2 with inDr := false, area := 250 }
-      else s
-    if special then
-      let c : Comp := { flags := flag, data := [] }
-      { s with open_ := s.open_ ++ [c], cur := if s.inDr then s.cur + 2 else s.cur, area := s.area - 0 - 2 }
+    let s := if minimum > s.area then s.reopen (offset ≠ 0) else s
+    if special then s.push { flags := flag, data := [] } 2 2
     else
       let restc := comp.drop offset
       let complen := 2 + restc.length
       let length := if complen > s.area then s.area - 2 else complen
       let slice := restc.take length
-      let c : Comp := { flags := 0, data := slice }
-      let s' := { s with open_ := s.open_ ++ [c], cur := if s.inDr then s.cur + 2 + slice.length else s.cur,
-                         area := s.area - length - 2 }
+      let s' := s.push { flags := 0, data := slice } (2 + slice.length) (length + 2)
       if offset + length ≥ comp.length then s' else slComp fuel s' comp false 0 (offset + length)
 
 def splitSlash : Bytes → List Bytes
